@@ -509,9 +509,70 @@ def V_is_conc_key(k):
     return _is_conc_key(k)
 
 
+def _contract_comprehension(i, node, fr, kind):
+    """[f(..x..) for x in <symbolic iterable>] where f has a verified contract with `elem_returns` (an abstract
+    object type) and modifies nothing: the result is a list of fresh tokens T_k with  forall k. ensures_f(args[x:=it[k]], T_k);
+    obligations: forall k. requires_f and not raises_f."""
+    from ..engine import Frame, BoundMethod as BM
+    from ..spec import REGISTRY, NS, named
+    from ..engine import _aslist
+    if kind != "list" or len(node.generators) != 1 or node.generators[0].ifs or not isinstance(node.elt, ast.Call):
+        return NotImplemented
+    g = node.generators[0]
+    it = i.eval(g.iter, fr)
+    sym = i.sym_iter(it, node)
+    if sym is None:
+        return NotImplemented
+    L, get = sym
+    sub = Frame(fr.module, fr.fn_node, fr.qualname, dict(fr.locals), fr.depth, fr.cls)
+    sub.closure_env = builtins.getattr(fr, "closure_env", None)
+    k = z3.Int("k!comp%d" % builtins.getattr(node, "lineno", 0))
+    i.assign(g.target, get(k), sub)
+    f = i.eval(node.elt.func, sub)
+    clo = f.func if isinstance(f, BM) else f
+    q = builtins.getattr(clo, "qualname", None)
+    ct = REGISTRY.get(q) if q else None
+    et = builtins.getattr(ct, "elem_returns", None) if ct is not None else None
+    if et is None or clo.node is None:
+        raise Unsupported("comprehension over a symbolic-length iterable whose element is not a contract call with elem_returns", node)
+    args = [i.eval(x, sub) for x in node.elt.args]
+    kwargs = {kw.arg: i.eval(kw.value, sub) for kw in node.elt.keywords}
+    if isinstance(f, BM):
+        args = [f.self_val] + args
+    loc = i.bind_args(clo.node, args, kwargs, node, clo)
+    loc["old"] = NS(dict(loc), "entry value")
+    a = NS(loc, "argument")
+    rng = z3.And(k >= 0, k < L)
+    label = i._cur_label
+    ln = builtins.getattr(node, "lineno", "?")
+    for rq in ct._requires:
+        for nm, fm in named(_aslist(rq(a)), "pre"):
+            i.ctx.prove("%s/comp:%s:%s@%s" % (label, q.rsplit(".", 1)[-1], nm, ln), z3.ForAll([k], z3.Implies(rng, fm)), node, "call")
+    for exc, when, iff in ct._raises:
+        c = when(a)
+        i.ctx.prove("%s/comp:%s:noraise:%s@%s" % (label, q.rsplit(".", 1)[-1], exc, ln),
+                    z3.ForAll([k], z3.Implies(rng, z3.Not(c) if is_z3(c) else z3.BoolVal(not c))), node, "call")
+    toks = i.ctx.fresh("comp_tokens", z3.ArraySort(Int, et.sort))
+    ret = AObj(et.clsname, z3.Select(toks, k))
+    for nm, e in ct._ensures:
+        for fm in _aslist(e(a, ret, i)):
+            fm = fm[1] if isinstance(fm, tuple) else fm
+            fm = fm if is_z3(fm) else z3.BoolVal(bool(fm))
+            i.ctx.assume(z3.ForAll([k], z3.Implies(rng, fm), patterns=[z3.Select(toks, k)]))
+    cn = et.clsname
+    return SymList(Seq(L, toks), elem_wrap=lambda t: AObj(cn, t))
+
+
+TRUSTED["list comprehension over a symbolic iterable"] = (
+    "[f(x) for x in xs] = the list whose k-th element satisfies f's (verified) postcondition for xs[k]; f must be effect-free")
+
+
 def comprehension(i, node, fr, kind):
     """Comprehensions over concrete-length iterables are unrolled; symbolic ones go to handlers."""
     r = _run("comprehension", i, node, fr, kind)
+    if r is not NotImplemented:
+        return r
+    r = _contract_comprehension(i, node, fr, kind)
     if r is not NotImplemented:
         return r
     from ..engine import Frame
@@ -556,6 +617,11 @@ from . import np_core  # noqa
 from . import h5  # noqa
 
 
+from . import np_setops  # noqa
+
+
 def on_new_path(i):
     for f in strings.base_axioms():
+        i.ctx.assume(f)
+    for f in arrays.val_axioms():
         i.ctx.assume(f)
